@@ -73,13 +73,13 @@ Definition neg_doc (d : doc) : doc :=
 
 (* ---- Invoice.Invert: line quantities, fixed line/document discount and charge amounts, their
         explicit bases, explicit charge quantities and advances are negated; due-date amounts are
-        not (they do not enter payable); the stored totals (and with them the external rounding)
-        are dropped.  (Bases and charge quantities are negated since the repair recorded in
+        not (they do not enter payable); an external rounding adjustment is kept, negated (it was
+        dropped with the stored totals before the second repair of Invert).  (Bases and charge quantities are negated since the repair recorded in
         KNOWN_FINDINGS.json; invert_doc_shipped is the earlier behaviour.) ---- *)
 Definition invert_doc (d : doc) : doc :=
   mkDoc (d_c d) (d_currency_rule d) (d_pit d) (d_cur d) (map line_neg (d_lines d))
         (map ddc_neg (d_discounts d)) (map ddc_neg (d_charges d)) (d_rates d)
-        (map prow_neg (d_advances d)) (d_dues d) None.
+        (map prow_neg (d_advances d)) (d_dues d) (oneg (d_rounding d)).
 
 Definition ldc_invert_shipped (d : ldc) : ldc := mkLdc (negate (ld_amount d)) (ld_pct d) (ld_base d) (ld_rate d) (ld_qty d).
 Definition line_invert_shipped (l : line) : line :=
